@@ -583,7 +583,8 @@ bloc_parse_executable(bloc_context *ctx, const char *text, bloc_parsing_position
   }
   catch (bloc::ParseError& pe)
   {
-    if (pos)
+    /* an error at the end of the text has no token */
+    if (pos && pe.token)
     {
       pos->lno = pe.token->line;
       pos->pno = pe.token->column;
